@@ -222,12 +222,9 @@ func cmdCheck(args []string) int {
 				}
 				solverSecs += o.Res.Seconds
 			}
-			// vacuity guard: the preconditions must not be unsatisfiable
-			for _, c := range res.Covers {
-				if coverUnsat(filepath.Join(outDir, sanitize(res.Func)), c, e.preludeText(res, res.Axioms)) {
-					coverFails = append(coverFails, c.Name)
-				}
-			}
+			// vacuity guards: preconditions, states after contract calls, loop
+			// bodies and at least one normal exit must be satisfiable
+			coverFails = append(coverFails, evalCovers(res, filepath.Join(outDir, sanitize(res.Func)), e.preludeText(res, res.Axioms))...)
 		}
 	}
 	// lemma files (SMT) registered for this property
@@ -363,9 +360,13 @@ func cmdCheck(args []string) int {
 		},
 		"assumptions": tb,
 	}
-	os.MkdirAll(filepath.Join(verifRoot, "evidence"), 0o755)
+	evDir := filepath.Join(verifRoot, "evidence")
+	if d := os.Getenv("EBU_EVIDENCE_DIR"); d != "" {
+		evDir = d // runs against seeded changes / mutants must not overwrite the evidence of the real tree
+	}
+	os.MkdirAll(evDir, 0o755)
 	data, _ := json.MarshalIndent(ev, "", " ")
-	os.WriteFile(filepath.Join(verifRoot, "evidence", P+".json"), append(data, '\n'), 0o644)
+	os.WriteFile(filepath.Join(evDir, P+".json"), append(data, '\n'), 0o644)
 	fmt.Printf("%s: %d obligations, %d discharged, %d violations, %d known findings, %.1fs\n", P, total, discharged, violations, len(knownSeen), wall)
 	if violations > 0 {
 		return 1
@@ -675,6 +676,42 @@ func cmdSelftest(args []string) int {
 // The FULL query (with every quantified axiom) is used: an inconsistent axiom
 // or precondition makes everything vacuously true, and only the full query can
 // show it.  Only a definite `unsat` counts.
+// evalCovers runs the reachability checks of one unit in parallel and returns
+// the names of those that are contradictory.
+func evalCovers(res *UnitResult, dir, decls string) []string {
+	unsat := make([]bool, len(res.Covers))
+	var wg sync.WaitGroup
+	sem := make(chan struct{}, 16)
+	for i, c := range res.Covers {
+		wg.Add(1)
+		sem <- struct{}{}
+		go func(i int, c *Oblig) {
+			defer wg.Done()
+			defer func() { <-sem }()
+			unsat[i] = coverUnsat(dir, c, decls)
+		}(i, c)
+	}
+	wg.Wait()
+	var bad []string
+	exits, exitsUnsat := 0, 0
+	for i, c := range res.Covers {
+		if c.Group == "exit" {
+			exits++
+			if unsat[i] {
+				exitsUnsat++
+			}
+			continue
+		}
+		if unsat[i] {
+			bad = append(bad, c.Name)
+		}
+	}
+	if exits > 0 && exits == exitsUnsat {
+		bad = append(bad, res.Func+"#cover.exit (no normal return is reachable)")
+	}
+	return bad
+}
+
 func coverUnsat(dir string, c *Oblig, decls string) bool {
 	os.MkdirAll(dir, 0o755)
 	var b strings.Builder
